@@ -74,7 +74,7 @@ func GetProfile(name string) *Profile {
 			W:       withW(map[string]int{"reload": 6, "cleanQueues": 3}),
 			GangPct: 15, ReqNode: 0, MaxPrio: 2, NodeMem: [2]int{2, 5}, AskMem: 3}
 	case "preempt":
-		return &Profile{Name: name, Conf: "pre", Queues: []string{"root.p.x", "root.p.y", "root.p.z", "root.f.u", "root.f.v", "root.nop"}, Apps: 6, Nodes: 3, Users: u2, Groups: g,
+		return &Profile{Name: name, Conf: "pre", Confs: []string{"pre", "pre", "pre4"}, Queues: []string{"root.p.x", "root.p.y", "root.p.z", "root.f.u", "root.f.v", "root.nop"}, Apps: 6, Nodes: 3, Users: u2, Groups: g,
 			W:       withW(map[string]int{"firePhTimer": 0, "deny": 0, "foreign": 1, "foreignRemove": 1, "addAsk": 30, "release": 3, "removeNode": 1, "removeApp": 1, "addNode": 8, "schedule": 45, "confirm": 12, "reportBound": 0, "updateAsk": 0}),
 			GangPct: 0, ReqNode: 10, MaxPrio: 4, NodeMem: [2]int{3, 6}, AskMem: 3, AgedPct: 80}
 	case "preempt2":
@@ -98,7 +98,7 @@ func GetProfile(name string) *Profile {
 			W:       withW(map[string]int{"bad": 30, "foreign": 4, "foreignRemove": 1, "reportBound": 2, "removeNode": 4}),
 			GangPct: 25, ReqNode: 10, MaxPrio: 3, NodeMem: [2]int{3, 6}, AskMem: 3}
 	case "dyn":
-		return &Profile{Name: name, Conf: "dyn", Queues: []string{"root.a", "root.d.u0", "root.d.u1", "root.e.k", "root.e.m", "", "root.zz.y"}, Apps: 5, Nodes: 3, Users: u2, Groups: g,
+		return &Profile{Name: name, Conf: "dyn", Confs: []string{"dyn", "dyn2"}, Queues: []string{"root.a", "root.d.u0", "root.d.u1", "root.e.k", "root.e.m", "", "root.zz.y"}, Apps: 5, Nodes: 3, Users: u2, Groups: g,
 			W:       withW(map[string]int{"cleanQueues": 4, "addApp": 9, "removeApp": 4}),
 			GangPct: 10, ReqNode: 0, MaxPrio: 2, NodeMem: [2]int{3, 6}, AskMem: 3}
 	}
@@ -114,6 +114,7 @@ type Gen struct {
 	live    map[string]bool // applications the generator believes are live (submitted, not removed)
 	tot     int
 	names   []string
+	conf    string // the configuration First() picked for this trace
 }
 
 var opOrder = []string{"addNode", "removeNode", "drain", "undrain", "updateNode", "foreign", "foreignRemove", "addApp", "removeApp", "addAsk", "release", "releaseAll", "confirm",
@@ -174,6 +175,7 @@ func (g *Gen) First() M {
 	if len(g.P.Confs) > 0 {
 		conf = g.P.Confs[g.rng.Intn(len(g.P.Confs))]
 	}
+	g.conf = conf
 	return M{"op": "reset", "conf": conf, "profile": g.P.Name}
 }
 
@@ -184,7 +186,10 @@ func (g *Gen) Prologue() []M {
 	case "preempt", "preempt2":
 		return g.preemptPrologue()
 	case "gang":
-		if g.rng.Intn(3) != 0 {
+		switch g.rng.Intn(6) {
+		case 0:
+			return g.twoSwapPrologue()
+		case 1, 2, 3:
 			return g.gangPrologue()
 		}
 	case "limits":
@@ -285,7 +290,7 @@ func (g *Gen) gangPrologue() []M {
 	}
 	g.sched(&ops, 1+rng.Intn(3))
 	// something happens while swaps may be in flight (before the shim has confirmed anything)
-	switch rng.Intn(9) {
+	switch rng.Intn(11) {
 	case 0, 8:
 		// a node other than the one the last real task was steered to: likely one that holds a placeholder
 		n := rng.Intn(g.P.Nodes)
@@ -305,7 +310,44 @@ func (g *Gen) gangPrologue() []M {
 		ops = append(ops, M{"op": "firePhTimer", "app": "app0"})
 	case 5:
 		ops = append(ops, M{"op": "drain", "node": g.node()})
+	case 6, 7:
+		// one swap is confirmed, the next one decided, then a real task that already runs finishes while that swap is in flight
+		ops = append(ops, M{"op": "confirm", "i": 0, "keep": false})
+		g.sched(&ops, 1+rng.Intn(2))
+		ops = append(ops, M{"op": "release", "app": "app0", "key": reals[rng.Intn(len(reals))], "term": "STOPPED_BY_RM"})
+		ops = append(ops, M{"op": "confirm", "i": 0, "keep": false})
 	}
+	return ops
+}
+
+// twoSwapPrologue: two placeholders, the first one replaced and confirmed, the second replacement decided; then the real task
+// that already runs finishes (or something else happens) while the second replacement is still waiting for its confirmation.
+func (g *Gen) twoSwapPrologue() []M {
+	rng := g.rng
+	var ops []M
+	for n := 0; n < g.P.Nodes; n++ {
+		ops = append(ops, M{"op": "addNode", "node": fmt.Sprintf("n%d", n), "cap": map[string]int64{"memory": int64(4 + rng.Intn(3)), "pods": 3}, "drained": false})
+	}
+	g.mkApp(&ops, "app0", g.P.Queues[rng.Intn(len(g.P.Queues))], true)
+	ops[len(ops)-1]["phAsk"] = map[string]int64{"memory": 4}
+	g.mkAsk(&ops, "app0", map[string]int64{"memory": 2}, 0, false, true, "tg", "")
+	g.mkAsk(&ops, "app0", map[string]int64{"memory": 2}, 0, false, true, "tg", "")
+	g.sched(&ops, 3)
+	r1 := g.mkAsk(&ops, "app0", map[string]int64{"memory": int64(1 + rng.Intn(2))}, 0, false, false, "tg", "")
+	g.sched(&ops, 2)
+	ops = append(ops, M{"op": "confirm", "i": 0, "keep": false})
+	g.mkAsk(&ops, "app0", map[string]int64{"memory": int64(1 + rng.Intn(2))}, 0, false, false, "tg", "")
+	g.sched(&ops, 2)
+	switch rng.Intn(4) {
+	case 0:
+		ops = append(ops, M{"op": "removeNode", "node": g.node()})
+	case 1:
+		ops = append(ops, M{"op": "firePhTimer", "app": "app0"})
+	default:
+		ops = append(ops, M{"op": "release", "app": "app0", "key": r1, "term": "STOPPED_BY_RM"})
+	}
+	ops = append(ops, M{"op": "confirm", "i": 0, "keep": false})
+	g.sched(&ops, 1)
 	return ops
 }
 
@@ -389,7 +431,39 @@ func (g *Gen) quotaPrologue() []M {
 	return ops
 }
 
+// quotaBoundPrologue (configuration pre4): big nodes, so the parent's maximum is what runs out. Victim applications in
+// root.p.y (guaranteed in two resource types) and root.p.z (no guarantee) fill the parent's quota with allocations that use
+// memory and pods, then an application in the guaranteed queue root.p.x asks for memory only: the ask fits the nodes but
+// not the parent, so victims have to be found by quota rather than by node.
+func (g *Gen) quotaBoundPrologue() []M {
+	rng := g.rng
+	var ops []M
+	for n := 0; n < g.P.Nodes; n++ {
+		ops = append(ops, M{"op": "addNode", "node": fmt.Sprintf("n%d", n), "cap": map[string]int64{"memory": 8, "pods": 6}, "drained": false})
+	}
+	for i, q := range []string{"root.p.y", "root.p.z"} {
+		app := fmt.Sprintf("app%d", i)
+		g.mkApp(&ops, app, q, false)
+		for j := 0; j < 3+rng.Intn(3); j++ {
+			rs := map[string]int64{"memory": int64(1 + rng.Intn(2))}
+			if rng.Intn(3) != 0 {
+				rs["pods"] = 1
+			}
+			g.mkAsk(&ops, app, rs, rng.Intn(2), false, false, "", "")
+		}
+	}
+	g.sched(&ops, 12)
+	g.mkApp(&ops, "app2", "root.p.x", false)
+	for j := 0; j < 1+rng.Intn(3); j++ {
+		g.mkAsk(&ops, "app2", map[string]int64{"memory": int64(1 + rng.Intn(2))}, 1+rng.Intn(3), true, false, "", "")
+	}
+	return ops
+}
+
 func (g *Gen) preemptPrologue() []M {
+	if g.conf == "pre4" {
+		return g.quotaBoundPrologue()
+	}
 	rng := g.rng
 	var ops []M
 	for n := 0; n < g.P.Nodes; n++ {
@@ -451,6 +525,11 @@ func (g *Gen) Next() M {
 		if rng.Intn(100) < g.P.GangPct {
 			// the placeholder total the application announces: with 4 it stays Accepted until two placeholders are allocated
 			op["gang"], op["phAsk"], op["style"] = true, map[string]int64{"memory": int64(2 + 2*rng.Intn(2))}, []string{"Soft", "Hard"}[rng.Intn(2)]
+		}
+		// dynamic queues without a child template take an application limit from the application's namespace tag
+		if g.P.Name == "dyn" && (q == "root.e.k" || q == "root.e.m" || q == "root.zz.y") && rng.Intn(3) == 0 {
+			n := 1 + rng.Intn(2)
+			op["tags"], op["tagMaxApps"] = map[string]string{"namespace.resourcemaxapps": fmt.Sprint(n)}, n
 		}
 		if g.P.ForcedPct > 0 && rng.Intn(100) < g.P.ForcedPct {
 			op["forced"] = true
